@@ -1,5 +1,6 @@
 import HbsModel.Registry
 import HbsModel.Lemmas.RM
+import HbsModel.Lemmas.Assoc
 import HbsModel.Props.C08
 /-
   C09  A partial renders as its template applied to the designated context.
@@ -139,5 +140,24 @@ theorem any_partial_restores_the_caller (reg : Registry) (root : Json) (fuel : N
     rc'.pbBinding = rc.pbBinding ∧ (rc.disableEscape = false → rc'.disableEscape = false) := by
   have := C08.partial_restores_frame reg root fuel d rc rc' out out' h
   exact ⟨this.blocks, this.indent, this.pbStack, this.pbBinding, this.esc⟩
+
+/-! ### inline partials: from the definition onward, the latest definition of a name wins -/
+
+/-- evaluating `{{#*inline "n"}}body{{/inline}}` binds `n` to `body` in the render's table of inline partials, whatever the
+    table held before (an earlier definition of `n` included), and touches nothing else of the state a sibling can observe -/
+theorem inline_definition_binds (reg : Registry) (root : Json) (fuel : Nat) (dt : DecoT) (di : DecoI) (p : PJ)
+    (name : Str) (t : Tmpl) (rc rc1 : RC) (out out1 : Out)
+    (hd : decoFromTemplate reg root fuel dt rc out = .ok di rc1 out1)
+    (hk : assocGet reg.decorators di.name = some .inline)
+    (hp : di.params[0]? = some p) (hs : p.json.asStr? = some name) (ht : di.template = some t) :
+    evalDecorator reg root (fuel + 1) dt rc out = .ok () { rc1 with partials := hashInsert rc1.partials name t } out1 := by
+  simp [evalDecorator, RM.bnd_apply, hd, hk, hp, hs, ht, RM.modifyAux]
+
+/-- after two definitions of the same name the second is in force; every other name keeps its binding -/
+theorem later_inline_definition_wins (ps : List (Str × Tmpl)) (n : Str) (t1 t2 : Tmpl) :
+    assocGet (hashInsert (hashInsert ps n t1) n t2) n = some t2 ∧
+    ∀ q, q ≠ n → assocGet (hashInsert (hashInsert ps n t1) n t2) q = assocGet ps q := by
+  refine ⟨assocGet_insert_same _ _ _, fun q hq => ?_⟩
+  rw [assocGet_insert_other _ _ _ _ hq, assocGet_insert_other _ _ _ _ hq]
 
 end Hbs.C09
